@@ -472,6 +472,7 @@ def tagged_case(
     primary_mode=None,  # two haplotypes, only the first is curated; its first painted scaffold carries `Primary`
     group_sizes=None,  # sizes of Pretext scaffolds to draw from
     all_painted=False,
+    unprefixed_in_primary=False,  # Primary mode: also scaffolds without a haplotype prefix (a second non-primary curated assembly)
 ):
     if exact:
         t = 1.0
@@ -490,7 +491,7 @@ def tagged_case(
         inp = draw(input_assembly(t, max_scaffolds=max_scaffolds, max_contigs=max_contigs, shape="fasta",
                                   min_scaffolds=2, strands="fwd"))
         for i, sc in enumerate(inp):
-            if i >= 2 and not primary and draw(st.integers(0, 4)) == 0:
+            if i >= 2 and (not primary or unprefixed_in_primary) and draw(st.integers(0, 1 if unprefixed_in_primary else 4)) == 0:
                 # a scaffold without a haplotype prefix (organelle, unassigned): belongs to no haplotype
                 new = draw(st.sampled_from(["MT{}", "scaffold_{}", "unassigned{}"])).format(90 + i)
                 for r in sc[1]:
